@@ -247,20 +247,22 @@ def unit_auto(lo, hi):
 # wrappers
 
 
-def unit_wrapper(which):
+def unit_wrapper(which, bufkind="opaque"):
     """Hex / SWTPMLog / Auto / Pcapng .marshal: scanner output becomes the buffer of Binary.marshal, the other arguments pass
     through unchanged, events are re-yielded unchanged"""
     modname = {"hex": "tpmstream.io.hex.marshal", "swtpm": "tpmstream.io.swtpm_log.marshal", "pcapng": "tpmstream.io.pcapng.marshal", "auto": "tpmstream.io.auto.marshal"}[which]
     Mo = mod(modname)
     B = mod("tpmstream.io.binary")
-    u = UnitResult(f"C15/WRAP/{which}")
+    u = UnitResult(f"C15/WRAP/{which}/{bufkind}")
     u.functions = [f"{modname}:marshal"]
 
     def run(ctx):
         calls = []
         E1, E2, RES = object(), object(), object()
         SCAN = object()
-        T, RP, CC, BUF = object(), object(), object(), object()
+        T, RP, CC = object(), object(), object()
+        # the result must not depend on the kind of iterable supplying the text (C10)
+        BUF = {"opaque": object(), "bytes": b"80 01", "bytearray": bytearray(b"8001"), "list": [0x38, 0x30, 0x30, 0x31], "iterator": iter(b"8001")}[bufkind]
 
         def binary_stub(I, args, kwargs):
             def gen():
@@ -311,7 +313,7 @@ def unit_wrapper(which):
         return ("return", ret)
 
     res = explore(run)
-    u.add_paths(res, f"C15/WRAP/{which}")
+    u.add_paths(res, f"C15/WRAP/{which}/{bufkind}")
     return u
 
 
@@ -443,7 +445,7 @@ def run(tier, seed, only=None):
     jobs = [(unit_hex, (list(range(i, min(i + 16, 256))),)) for i in range(0, 256, 16)]
     jobs += [(unit_swtpm, ())]
     jobs += [(unit_auto, (i, min(i + 15, 255))) for i in range(0, 256, 16)]
-    jobs += [(unit_wrapper, (w,)) for w in ("hex", "swtpm", "pcapng")] + [(unit_auto_dispatch, ())]
+    jobs += [(unit_wrapper, (w, k)) for w in ("hex", "swtpm") for k in ("opaque", "bytes", "bytearray", "list", "iterator")] + [(unit_wrapper, ("pcapng", "opaque")), (unit_auto_dispatch, ())]
     jobs += [(unit_pcap, (n,)) for n in range(0, 17)]
     if only:
         jobs = [j for j in jobs if only in repr(j)]
